@@ -68,23 +68,49 @@ Definition check_envelope (p : params) (d0 g : Z) : bool :=
   match s with t0 :: _ => (0 <=? t0) && (t0 <=? init_ms p) | [] => false end &&
   envelope_gaps_ok true (gaps s) p.
 
+(* ---------------------------------------------------------------- which parameter set a message kind uses
+   The six message kinds of WS-Discovery.  Hello, Bye, Probe and Resolve go to the multicast group and are repeated
+   with the multicast parameter set; ProbeMatches and ResolveMatches are unicast answers to the requester and are
+   repeated with the unicast parameter set (SOAP-over-UDP, appendix I).  What the CODE chooses per kind is traced on
+   every run from the real WSDiscovery object (harness/impl/gen_wsd_kinds.py -> Wsd/Gen_Kinds.v). *)
+Inductive kind := KHello | KBye | KProbe | KResolve | KProbeMatches | KResolveMatches.
+Inductive pset := PUnicast | PMulticast | POther (p : params).
+Inductive dest := DGroup | DRequester | DOther.
+Definition all_kinds : list kind := [KHello; KBye; KProbe; KResolve; KProbeMatches; KResolveMatches].
+Definition is_multicast_kind (k : kind) : bool :=
+  match k with KProbeMatches | KResolveMatches => false | _ => true end.
+Definition spec_pset (k : kind) : pset := if is_multicast_kind k then PMulticast else PUnicast.
+Definition spec_dest (k : kind) : dest := if is_multicast_kind k then DGroup else DRequester.
+Definition pset_params (u m : params) (s : pset) : params :=
+  match s with PUnicast => u | PMulticast => m | POther p => p end.
+
 (* ---------------------------------------------------------------- known message ids (deque(maxlen=cap), appendleft) *)
+(* public operations of WSDiscovery that run while own messages are in flight; none of them touches the memory *)
+Inductive api_op := OpPublish | OpClearService | OpClearLocal | OpClearRemote | OpSearch | OpFound | OpStop.
 Section Dedup.
   Variable cap : nat.
   Definition known := list Z.               (* newest first *)
   Definition remember (k : known) (id : Z) : known := firstn cap (id :: k).
   Definition is_known (k : known) (id : Z) : bool := existsb (Z.eqb id) k.
 
-  Inductive ev := EvOut (id : Z) | EvIn (id : Z).
+  (* EvOut: add_outbound_message registers an own id; EvIn: _run_q_read sees a datagram with this id;
+     EvOp: a public operation of WSDiscovery (the messages it sends are separate EvOut events);
+     EvRestart: stop() has joined the threads (every own transmission has gone out, the sockets are closed) and
+     start() created a new NetworkingThread with an empty memory *)
+  Inductive ev := EvOut (id : Z) | EvIn (id : Z) | EvOp (o : api_op) | EvRestart.
   (* result: new memory, and whether the message was handed to handle_received_message *)
   Definition dstep (k : known) (e : ev) : known * bool :=
     match e with
     | EvOut id => (remember k id, false)
     | EvIn id => if is_known k id then (k, false) else (remember k id, true)
+    | EvOp _ => (k, false)
+    | EvRestart => ([], false)
     end.
   Fixpoint drun (k : known) (es : list ev) : known * list bool :=
     match es with
     | [] => (k, [])
     | e :: r => let '(k1, b) := dstep k e in let '(k2, bs) := drun k1 r in (k2, b :: bs)
     end.
+  Definition is_restart (e : ev) : bool := match e with EvRestart => true | _ => false end.
+  Definition no_restart (es : list ev) : bool := forallb (fun e => negb (is_restart e)) es.
 End Dedup.
